@@ -5,6 +5,19 @@ use std::ops::Range;
 
 /// Token byte ranges of a text (whitespace and comments included). If the lexer reports an error
 /// the rest of the text becomes one final chunk.
+/// All tokens up to (and excluding) the first Error token. The lexer keeps yielding Error tokens
+/// without advancing after some malformed inputs, so iteration is always cut at the first one.
+pub fn lex_all(src: &str) -> Vec<koto_lexer::LexedToken> {
+    let mut out = vec![];
+    for t in Lexer::new(src) {
+        if t.token == Token::Error || out.len() > 2 * src.len() + 3 {
+            break;
+        }
+        out.push(t);
+    }
+    out
+}
+
 pub fn token_ranges(src: &str) -> Vec<Range<usize>> {
     let mut out = vec![];
     let mut end = 0;
